@@ -107,8 +107,15 @@ def clause_a(rep, F, caps):
             clause_e_loops(rep, F, E, EB)
     rep.floor("Input primitive call sites visited by E1", floor_sites or 0, 100)
     # E1 follows calls, not closures: an Input operation inside a closure would escape the look-ahead analysis (fail closed)
+    onpath = parse_path_functions(F)
     for k, f in sorted(F.fns.items()):
         if f.kind == "Closure" and f.crate == "saphyr_parser" and "::test" not in k:
+            # only closures of code that runs while parsing matter (a provided Input method nobody on the parse path calls is outside the property)
+            parent = f.d.get("closure_of")
+            while parent in F.fns and F.fns[parent].kind == "Closure":
+                parent = F.fns[parent].d.get("closure_of")
+            if parent not in onpath and not any(p in onpath for p in f.d.get("closure_of_also", ())):
+                continue
             ops = [fr["name"] for bb, t, ck, fr in f.calls() if fr and fr.get("trait") == INPUT]
             rep.check(not ops, "input-contract", "%s:closure" % short(k), "an Input operation (%s) is performed inside a closure, which the look-ahead "
                       "analysis does not follow: analysis incomplete" % ", ".join(ops), site=f.span)
